@@ -289,7 +289,9 @@ class Ref:
             if cb.kind >= 7:
                 # SparseVector(Blocked)::convert is documented as "a deep copy in any case" (sort(); clone(other))
                 if ca is not None and not ca.sidx:
-                    raise Invalid("F-C20-4: convert into a cleared / moved-from sparse vector throws")
+                    if s == b:
+                        raise Invalid("self-convert of a scalar-less sparse vector")
+                    self.flags.add("F4")     # open finding F-C20-4: the real code throws std::out_of_range here
                 if s == b:
                     raise Abort("sparse vector convert is a clone: self-clone aborts")
                 tdt, tit = (dt, it) if ca is None else (ca.dt, ca.it)
@@ -346,6 +348,28 @@ class Ref:
             c.elems, c.inds, c.foreign = cb.elems, cb.inds, cb.foreign
             cb.emptied()          # the moved-from object keeps its flag, owns nothing
             self.slots[s] = c
+        elif op == "copy":
+            s, b, full = a
+            ca = self.need_alive(s)
+            cb = self.need_alive(b)
+            if (ca.kind, ca.dt, ca.it) != (cb.kind, cb.dt, cb.it) or ca.kind >= 7:
+                raise Invalid("copy types")
+            if s == b:
+                return
+            if len(ca.elems) != len(cb.elems) or len(ca.inds) != len(cb.inds) or len(ca.sidx) != len(cb.sidx):
+                raise Abort("container size mismatch")
+            if [e[2] for e in ca.elems] != [e[2] for e in cb.elems] or \
+                    (full and [e[2] for e in ca.inds] != [e[2] for e in cb.inds]):
+                raise Abort("container size mismatch")
+            # copy() writes INTO the target's existing arrays (memcpy): visible to every sharing relative
+            pairs = (list(zip(ca.inds, cb.inds)) if full else []) + list(zip(ca.elems, cb.elems))
+            for d, q in pairs:
+                if d[0] is None or (d[0] is q[0] and d[1] == q[1]):
+                    continue
+                vals = read(q)
+                d[0].v[d[1]:d[1] + d[2]] = vals
+            if full:
+                ca.sidx = list(cb.sidx)
         elif op == "clear":
             ca = self.need_alive(a[0])
             ca.emptied()
@@ -443,7 +467,7 @@ class Ref:
         return out
 
 
-OP_ARITY = {"mk": 6, "new": 6, "mat": 9, "band": 6, "adopt": 2, "range": 4, "clone": 4, "conv": 4, "xconv": 2, "move": 2,
+OP_ARITY = {"copy": 3, "mk": 6, "new": 6, "mat": 9, "band": 6, "adopt": 2, "range": 4, "clone": 4, "conv": 4, "xconv": 2, "move": 2,
             "clear": 1, "destroy": 1, "format": 2, "write": 5, "lay": 2, "mlay": 5, "ldrop": 1, "end": 0}
 
 
@@ -555,7 +579,7 @@ def gen_history(rng, length, selfbias=0.0):
             trial.apply(t)
         except (Abort, Invalid, IndexError):
             continue
-        if trial.dangling():
+        if trial.dangling() or trial.flags:
             continue
         ref = trial
         ops.append(t)
@@ -614,8 +638,11 @@ def propose(rng, ref, selfbias=0.0):
         return ["clone", S(tgt), S(b), S(rng.randrange(5)), S(rng.randrange(100, 190))]
     if r < 0.44:
         return ["conv", S(tgt), S(b), S(rng.randrange(2)), S(rng.randrange(2))]
-    if r < 0.50:
+    if r < 0.48:
         return ["move", S(tgt), S(b)]
+    if r < 0.50:
+        same = [s for s in alive if (ref.slots[s].kind, ref.slots[s].dt, ref.slots[s].it) == (cb.kind, cb.dt, cb.it)]
+        return ["copy", S(rng.choice(same)), S(b), S(rng.randrange(2))]
     if r < 0.56 and cb.kind <= 1:
         if dead and rng.random() < 0.6:
             n = cb.size()
@@ -814,6 +841,8 @@ def small_alphabet(ref):
                 ops.append(["conv", S(a), S(b), "0", "0"])
             if ca is None or (ca.dt, ca.it) == (cb.dt, cb.it):
                 ops.append(["move", S(a), S(b)])
+            if ca is not None and (ca.dt, ca.it) == (cb.dt, cb.it) and cb.kind < 7:
+                ops.append(["copy", S(a), S(b), "1"])
         ops += [["clear", S(b)], ["destroy", S(b)], ["format", S(b), "5"]]
         if cb.kind <= 1 and dead:
             d = S(dead[0])
@@ -855,7 +884,7 @@ def exhaustive_histories(maxlen):
                 continue
             except (Invalid, IndexError):
                 continue
-            if trial.dangling():
+            if trial.dangling() or trial.flags:
                 continue
             rec(trial, prefix + [t])
 
@@ -863,13 +892,73 @@ def exhaustive_histories(maxlen):
     return out
 
 
-# F-C20-4 (see FINDINGS_C20.md): SparseVector(Blocked)::convert into a cleared / moved-from target throws
-# std::out_of_range (sort() -> _scalar_index.at(4)).  Compared with the model only (the model is faithful), not judged.
-EDGE_SV = [
-    "mk 0 7 0 0 2 10 mk 1 7 0 0 1 5 clear 1 conv 1 0 0 0",
-    "mk 0 8 0 0 2 10 mk 1 8 0 0 1 5 move 2 1 conv 1 0 0 0",
-    "mk 0 7 1 1 2 10 mk 1 7 0 0 1 5 clear 1 conv 1 0 0 0",
+# F-C20-4 (open, see FINDINGS_C20.md): SparseVector(Blocked)::convert into a cleared / moved-from target throws
+# std::out_of_range (sort() -> _scalar_index.at(4)).  Judged by the oracle (expected: a deep copy of the source) and
+# matched against the open entry "c20-edge:F4" of known_findings_C20.json.
+EDGE_F4 = [
+    "mk 0 7 0 0 2 10 mk 1 7 0 0 1 5 clear 1 conv 1 0 0 0 destroy 0 destroy 1 end",
+    "mk 0 8 0 0 2 10 mk 1 8 0 0 1 5 move 2 1 conv 1 0 0 0 destroy 1 destroy 0 destroy 2 end",
+    "mk 0 7 1 1 2 10 mk 1 7 0 0 1 5 clear 1 conv 1 0 0 0 destroy 1 destroy 0 end",
 ]
+
+
+def signature_f4(case, out, why):
+    ref = Ref()
+    try:
+        for t in split_ops(case) or []:
+            if t[0] == "end":
+                break
+            ref.apply(t)
+    except (Abort, Invalid, IndexError):
+        pass
+    if "F4" in ref.flags and out == "EXC":
+        return "c20-edge:F4"
+    return signature(case, out, why)
+
+
+def install_known_findings():
+    """known findings of this property live in known_findings_C20.json (same format and matching rule as the shared
+    KNOWN_FINDINGS.json: property + signature, status open)"""
+    path = os.path.join(vlib.VERIF, "known_findings_C20.json")
+    orig = vlib.load_known
+
+    def load(prop):
+        lst = list(orig(prop))
+        if prop == PROP and os.path.exists(path):
+            data = json.load(open(path))
+            lst += [e for e in data.get("findings", []) if e.get("property") == prop and e.get("status") == "open"]
+        return lst
+    vlib.load_known = load
+
+
+def shared_target_cases():
+    """deterministic: the target `y` (slot 1) of clone-into (all modes) / convert-into / move-assign / copy / layout
+    assignment is NON-EMPTY, has the same sizes as the source `x` (slot 0) and shares its arrays with a third
+    container (slot 2: shallow clone, same-type convert, weak clone, matrix on the same layout); afterwards writes
+    through all three and both teardown orders.  A rebinding op must leave slot 2 untouched, copy() writes through"""
+    out = []
+    n = 0
+    for kind in (0, 2):
+        mkx = "new 0 0 0 0 4 10" if kind == 0 else "mat 0 2 0 0 2 3 2 10 0"
+        mky = "new 1 0 0 0 4 50" if kind == 0 else "mat 1 2 0 0 2 3 2 50 1"
+        rels = ["clone 2 1 0 0", "conv 2 1 0 0", "clone 2 1 2 0"]
+        if kind == 2:
+            rels.append("lay 0 1 mlay 2 0 2 0 90")
+        for rel in rels:
+            repl = ["clone 1 0 %d 70" % m for m in range(5)] + ["conv 1 0 0 0", "move 1 0", "copy 1 0 0", "copy 1 0 1"]
+            if kind == 2:
+                repl.append("lay 1 0 mlay 1 1 2 0 95")
+            for op in repl:
+                n += 1
+                ops = [mkx, mky, rel, op, "write 2 0 0 1 401", "write 1 0 0 2 402"]
+                if not op.startswith("move"):
+                    ops.append("write 0 0 0 3 403")
+                ops += ["format 2 7", "format 1 8"]
+                order = [0, 1, 2] if n % 2 else [2, 1, 0]
+                ops += ["destroy %d" % x for x in order]
+                ops += ["ldrop %d" % l for l in (0, 1) if ("lay %d " % l) in " ".join(ops)]
+                out.append(" ".join(ops + ["end"]))
+    return out
 
 
 def nontrivial(case):
@@ -946,6 +1035,7 @@ def signature(case, out, why):
 
 def main(argv):
     args = vlib.std_args(argv)
+    install_known_findings()
     t0 = time.time()
     rng = random.Random(args.seed * 1000003 + 20)
     src = os.path.join(vlib.VERIF, "harness", "c20", "main.cpp")
@@ -971,7 +1061,7 @@ def main(argv):
         return vlib.run_pipeline(PROP, args.tier, args.seed, lean, streams, t0, replay_mode=True)
     quick = args.tier == "quick"
     n_hist = 1500 if quick else 16000
-    cross = cross_type_cases()
+    cross = cross_type_cases() + shared_target_cases()
     for c in CORPUS + cross:      # deterministic cases must be histories the oracle really judges
         r = Ref()
         for t in split_ops(c):
@@ -1001,8 +1091,8 @@ def main(argv):
         vlib.Stream("exhaustive-small", exh, [binary], drv, oracle=oracle, canon=canon,
                     nontrivial=lambda c: True, describe=exh_describe, signature=signature),
     ]
-    streams.append(vlib.Stream("edge-sparse-vector-convert", EDGE_SV, [binary], drv, oracle=None, canon=canon,
-                               nontrivial=lambda c: False, describe=describe, signature=signature))
+    streams.append(vlib.Stream("edge-F4", EDGE_F4, [binary], drv, oracle=oracle, canon=canon,
+                               nontrivial=lambda c: False, describe=describe, signature=signature_f4))
     if not quick:
         streams.append(vlib.Stream("exhaustive-small-asan", exh, [asan], drv, oracle=oracle, canon=canon,
                                    nontrivial=lambda c: False, describe=exh_describe, signature=signature))
@@ -1011,7 +1101,8 @@ def main(argv):
             "and cross type)/convert/move(self, ctor, assign)/clear/destroy/format/write/layout take/make/assign/drop, "
             "random teardown order, MemoryPool::finalize at the end; plus 144 deterministic cross-type clone(5 modes)/convert "
             "cases (DT equal/IT different and vice versa, live and fresh target, writes through both sides) and "
-            "view<->owner move assignments; plus EVERY op sequence of length <= 4 "
+            "view<->owner move assignments, 67 cases with a NON-EMPTY target that shares its arrays with a third container "
+            "(clone-into 5 modes / convert-into / move-assign / copy / layout assignment, equal sizes); plus EVERY op sequence of length <= 4 "
             "over 3 containers + 1 layout from a finite alphabet (new DV/CSR, clone 5 modes, convert same/other type, "
             "move, clear, destroy, format, range, adopt, dense<->blocked, layout take/make/drop, incl. self and aborting "
             "ops); full pool+container state compared after every "
